@@ -5,6 +5,7 @@ import TplModel.Exp.Parse
 import TplModel.Exp.Eval
 import TplModel.Driver.Values
 import TplModel.Html.Engine
+import TplModel.Proofs.RenderRefineBase
 /-! Request handlers of the JSON-lines driver: one JSON object in, one JSON object out. -/
 namespace Ops
 open Lean (Json)
@@ -149,6 +150,14 @@ def loadFiles (cfg : EN.Cfg) (fns : List (String × EV.FnSpec)) (files : List (A
       | r => r
   go 0 files { cfg := cfg, templates := [], files := [], cx := { exprs := #[], fns := fns } }
 
+/-- Bool mirror of `RN.Sorted` (the hypothesis of `RN.exec_refines_ref`), evaluated on every loaded template -/
+partial def sortedB (cfg : RN.Cfg) (n : RN.Node) : Bool :=
+  RN.orderFrom cfg 0 n.d.attrs && n.kids.all (sortedB cfg)
+
+/-- do the loaded templates satisfy the hypotheses of the refinement theorem (unique ids, documented attribute order)? -/
+def hypOK (m : EN.Mgr) : Bool :=
+  m.templates.all fun (_, t) => decide ((RN.ids t).Nodup) && sortedB (EN.rcfgOf m.cfg) t
+
 /-- {"op":"render","files":[[name,src]…],"tpl":name,"data":tv,"global":tv,"fns":{…},"cfg":{…}} -/
 def renderOp (j : Json) : Json :=
   let files := (j.getObjValAs? (Array (Array String)) "files").toOption.getD #[]
@@ -172,7 +181,7 @@ def renderOp (j : Json) : Json :=
       let r := RN.execute rc env fuel root [dv, gv]
       let q := RN.refExecute rc env fuel root [dv, gv]
       if r.log.contains EN.unsupportedEv || q.log.contains EN.unsupportedEv then Json.mkObj [("load", "unsupported")]
-      else Json.mkObj [("load", "ok"), ("get", "found"), ("templates", names),
+      else Json.mkObj [("load", "ok"), ("get", "found"), ("templates", names), ("hyp", hypOK m),
         ("impl", runJ r.st r.out r.log), ("spec", runJ q.st q.out q.log)]
 
 end Ops
